@@ -91,19 +91,23 @@ Qed.
 
 End ne.
 
-(* K10: the zero-request case is still false of the faithful model.  Reinstatement now refuses the history that
-   used to produce it (a Reserve that takes the last sharable CPUs of a pool, then a BestEffort container reinstated
-   there) ... *)
+(* K10: the zero-request case is false of the faithful model.  Reinstatement: a grant that takes the last sharable
+   CPUs of its pool is refused only when a container running on them was reinstated BEFORE it (the order is that of a
+   Go map); reinstated after it, a BestEffort container is told an empty cpuset. *)
 Definition k10_tree : tree := [ {| p_parent := None; p_iso := ∅; p_res := ∅; p_shar := list_to_set [4%nat; 5%nat] |} ].
-Definition k10_ops : list op :=
-  [ OReserve 1 {| g_pool := 0; g_excl := list_to_set [4%nat; 5%nat]; g_type := CpuNormal; g_portion := 0 |};
-    OReserve 6 {| g_pool := 0; g_excl := ∅; g_type := CpuNormal; g_portion := 0 |} ].
-Lemma k10_reserve_refused : run k10_tree (init k10_tree) k10_ops = Err (ErrGuard 14).
-Proof. vm_compute. reflexivity. Qed.
+Definition k10_g1 : grant := {| g_pool := 0; g_excl := list_to_set [4%nat; 5%nat]; g_type := CpuNormal; g_portion := 0 |}.
+Definition k10_g6 : grant := {| g_pool := 0; g_excl := ∅; g_type := CpuNormal; g_portion := 0 |}.
+Definition k10_ops : list op := [ OReserve 1 k10_g1; OReserve 6 k10_g6 ].
+Lemma k10_reserve_order :
+  run k10_tree (init k10_tree) [ OReserve 6 k10_g6; OReserve 1 k10_g1 ] = Err (ErrGuard 13) /\
+  match run k10_tree (init k10_tree) k10_ops with
+  | Ok s => bool_decide (told_cpus k10_tree s k10_g6 = ∅) = true
+  | Err _ => False end.
+Proof. vm_compute. split; reflexivity. Qed.
 
-(* ... but a zero-request container can still be ALLOCATED into a pool that has no sharable CPU left: AllocateCPU
-   tests nothing for a request without CPUs.  A child pool {4,5} under a root {4,5,6}: a 2-CPU container takes 4,5 at
-   the root while the child is empty, then a BestEffort container is placed in the child. *)
+(* Allocation: AllocateCPU tests nothing for a request without CPUs.  A child pool {4,5} under a root {4,5,6}: a 2-CPU
+   container takes 4,5 at the root while the child is empty, then a BestEffort container is placed in the child
+   (by the pool hint of a fallback re-allocation, or because no pool has capacity left). *)
 Definition k10a_tree : tree :=
   [ {| p_parent := Some 1%nat; p_iso := ∅; p_res := ∅; p_shar := list_to_set [4%nat; 5%nat] |};
     {| p_parent := None; p_iso := ∅; p_res := ∅; p_shar := list_to_set [4%nat; 5%nat; 6%nat] |} ].
